@@ -153,7 +153,13 @@ def class_calls(rng, n):
         rows = rng.randint(1, 8)
         keys = [rng.choice([["s", "a"], ["s", "b"], ["i", 1], ["N"]]) for _ in range(rows)]
         vals = rand_col(rng, rows, CLS_POOLS[cls], rng.choice([0, .2, .5]))
-        cs.append({"op": "cls", "cls": cls, "keys": keys, "vals": vals})
+        c = {"op": "cls", "cls": cls, "keys": keys, "vals": vals}
+        if rng.random() < 0.12:
+            # float keys with NaN among them (NaN != NaN: how such rows group is outside C12 / C13): run for the benefit of
+            # C03's monitor only - whatever comes out is typed truthfully
+            c["keys"] = [rng.choice([["f", (1.5).hex()], ["f", (2.5).hex()], ["f", float("nan").hex()]]) for _ in range(rows)]
+            c["monitor_only"] = True
+        cs.append(c)
     return cs
 
 
@@ -457,6 +463,9 @@ def _call_on(t, names, pre, case, method, log, obs=None):
 
 def observe(case):
     try:
+        if case["op"] == "cls" and case.get("monitor_only"):
+            observe_classes(case)
+            return {"cls": True, "agg_verdict": None, "win_verdict": None, "ran": []}
         if case["op"] == "cls":
             o = observe_classes(case)
             return {"cls": True, "agg_verdict": oracle_classes(case, o, "aggregate"),
